@@ -77,7 +77,9 @@ def etree_getpath(elem: ElementType,
                   namespaces: Optional[NsmapType] = None,
                   relative: bool = True,
                   add_position: bool = False,
-                  parent_path: bool = False) -> Optional[str]:
+                  parent_path: bool = False,
+                  pruned: Optional[dict[ElementType, dict[str, int]]] = None) \
+        -> Optional[str]:
     """
     Returns the XPath path from *root* to descendant *elem* element.
 
@@ -87,6 +89,8 @@ def etree_getpath(elem: ElementType,
     :param relative: returns a relative path.
     :param add_position: add context position to child elements that appear multiple times.
     :param parent_path: if set to `True` returns the parent path. Default is `False`.
+    :param pruned: for partially loaded trees, the number of children already deleted \
+    from each element, by tag (see :attr:`XMLResource.pruned`): they are counted in positions.
     :return: An XPath expression or `None` if *elem* is not a descendant of *root*.
     """
     ancestors = etree_get_ancestors(elem, root)
@@ -109,6 +113,8 @@ def etree_getpath(elem: ElementType,
         name = get_prefixed_qname(child.tag, namespaces) if namespaces else child.tag
         if add_position:
             position = siblings = 1
+            if pruned and parent in pruned:
+                position = siblings = 1 + pruned[parent].get(child.tag, 0)
             for c in parent:
                 if c is child:
                     position = siblings
